@@ -45,6 +45,16 @@ Theorem unknown_noncritical_skipped : forall sc, schema_wf sc = true ->
 Proof. exact bparse_unknown_skipped. Qed.
 Print Assumptions unknown_noncritical_skipped.
 
+(* an unrecognised critical element (type number <= 31 or odd) at any element boundary causes rejection
+   (ErrUnrecognizedField) when the caller did not ask to ignore critical elements — whatever follows it *)
+Theorem unknown_critical_rejected : forall sc, schema_wf sc = true ->
+  forall d f mi vs es1 es2 t l junk, (S f <= d)%nat -> wf_value (S f) sc mi vs = true -> small (encode (S f) sc mi vs) ->
+  elements f sc mi vs = es1 ++ es2 ->
+  find_field t 0 (flds (the_model sc mi)) = None -> critical t = true -> t < two64 -> l < two64 ->
+  bparse (S d) sc mi false (br_of (concat es1 ++ tl_enc t ++ tl_enc l ++ junk)) = Err E_CRITICAL.
+Proof. exact bparse_unknown_critical_rejected. Qed.
+Print Assumptions unknown_critical_rejected.
+
 (* the elements are the encoding *)
 Theorem elements_are_encoding : forall f sc mi vs, wf_value (S f) sc mi vs = true ->
   concat (elements f sc mi vs) = encode (S f) sc mi vs.
